@@ -11,6 +11,7 @@
 //!   driver override_write                           the driver implements write_input itself (logged as W)
 //!   maxrows <n>
 //!   vars                                            report vars() after every row
+//!   continue                                        keep calling next() after an error item (recorded as an ERR row)
 //!   expect ...                                      (ignored here; read by tools/scenarios.py)
 //!   program
 //!   <program text, verbatim, to the end of the file>
@@ -64,10 +65,10 @@ impl<'s> Drv<'s> {
             _ => {}
         }
         if let Some((kind, n)) = &self.cfg.deviate {
-            let active = if kind == "dupfirst" { self.calls == *n } else { self.calls >= *n };
+            let active = if kind == "dupfirst" || kind == "swaponce" { self.calls == *n } else { self.calls >= *n };
             if active && !outs.is_empty() {
                 match kind.as_str() {
-                    "swap" if outs.len() >= 2 => outs.swap(0, 1),
+                    "swap" | "swaponce" if outs.len() >= 2 => outs.swap(0, 1),
                     "drop" => {
                         outs.remove(0);
                     }
@@ -138,6 +139,7 @@ fn main() {
     let mut cfg = Cfg { value: "const 0".into(), layout: "fwd".into(), ..Default::default() };
     let mut maxrows = 64usize;
     let mut want_vars = false;
+    let mut keep_going = false;
     let mut program = String::new();
     let mut in_prog = false;
     for line in text.split_inclusive('\n') {
@@ -178,6 +180,7 @@ fn main() {
             },
             "maxrows" => maxrows = w[1].parse().unwrap(),
             "vars" => want_vars = true,
+            "continue" => keep_going = true,
             "program" => in_prog = true,
             _ => {}
         }
@@ -245,7 +248,20 @@ fn main() {
                         vars.push(v.iter().map(|(k, x)| format!("{k}={x}")).collect::<Vec<_>>().join(" "));
                     }
                 }
-                Some(Err(e)) => return (rows, vars, Some(format!("row error: {:?}", e))),
+                Some(Err(e)) => {
+                    if keep_going {
+                        // the caller carries on past an error item (the iterator allows it)
+                        let msg = format!("{:?}", e);
+                        rows.push(format!("ERR {}", msg.split('(').take(4).collect::<Vec<_>>().join("(")));
+                        if want_vars {
+                            let mut v: Vec<(String, i64)> = it.vars().into_iter().collect();
+                            v.sort();
+                            vars.push(v.iter().map(|(k, x)| format!("{k}={x}")).collect::<Vec<_>>().join(" "));
+                        }
+                    } else {
+                        return (rows, vars, Some(format!("row error: {:?}", e)));
+                    }
+                }
             }
             n += 1;
         }
